@@ -235,3 +235,235 @@ pub fn tree_bounds(prop: &str, tier: &str) -> Value {
     "wild_leaves": if matches!(prop, "C01" | "C07") { wild_leaves().len() } else { 0 },
   })
 }
+
+// ---------------------------------------------------------------- C13
+
+pub fn c13_pool(tier: &str) -> Vec<Term> {
+  use crate::term::Repl;
+  let sc = general_scope(tier);
+  let mut pool: Vec<Term> = sc.small_leaves.clone();
+  let o = |t: &str| Term::orig(t, &trees::file_for(t, trees::TEXTS_FULL));
+  pool.push(Term::replace(o("a\nb"), vec![Repl::new(1, 2, "")]));
+  pool.push(Term::replace(o("a;b"), vec![Repl::new(1, 1, "X\n")]));
+  pool.push(Term::replace(Term::raw("a\nb"), vec![Repl::new(0, 1, "Y\nZ")]));
+  pool.push(Term::replace(Term::raw(""), vec![Repl::new(0, 1, "Y\nZ")]));
+  pool.push(Term::replace(o("a"), vec![Repl::new(0, 1, "")]));
+  pool.push(Term::concat(vec![o("a"), Term::raw("b")]));
+  pool.push(Term::concat(vec![Term::raw("a\n"), o("a\nb")]));
+  pool.push(Term::cached(o("a;b")));
+  pool.push(Term::cached(Term::concat(vec![o("a"), Term::raw("\n")])));
+  pool.push(Term::boxed(Term::concat(vec![o("a\nb"), o("a")])));
+  pool.push(Term::RawBuf(b"a\n".to_vec()));
+  pool.push(Term::RawStr("b".into()));
+  if tier == "thorough" {
+    let extra = trees::sms_leaves(&["ab\n", "a\nb"], 2, &[None, Some(K_A), Some(K_B)]);
+    pool.extend(extra.into_iter().step_by(3).take(24));
+    let extra = trees::script_leaves(&["a\nb", "ab"], 2, &[None, Some(K_A), Some(K_B)], true);
+    pool.extend(extra.into_iter().step_by(2).take(24));
+    for t in trees::TEXTS_FULL {
+      pool.push(o(t));
+      pool.push(Term::raw(t));
+      pool.push(Term::replace(o(t), vec![Repl::new(1, 3, "X")]));
+      pool.push(Term::replace(Term::raw(t), vec![Repl::new(0, 0, "\n"), Repl::new(2, 9, "")]));
+    }
+  }
+  pool.sort();
+  pool.dedup();
+  pool
+}
+
+pub fn c13_worker(tier: &str, k: usize, n: usize, ctx: &mut Ctx) {
+  use crate::term::Repl;
+  let pool = c13_pool(tier);
+  let mut st = Striper::new(k, n);
+  let mk = |children: Vec<Term>, typed: bool, add: bool| Term::Concat { children, typed, add };
+  // unary laws
+  for a in &pool {
+    if !st.mine() {
+      continue;
+    }
+    crate::set_current_case(a);
+    ctx.begin_case(|| serde_json::to_string(a).unwrap());
+    ctx.states += 1;
+    ctx.sample(40, 2, || sample_of(a));
+    tc::c13_pair(ctx, "single_child_concat", a, &Term::concat(vec![a.clone()]), false);
+    tc::c13_pair(ctx, "single_child_concat_add", a, &mk(vec![a.clone()], true, true), false);
+    tc::c13_pair(ctx, "cached", a, &Term::cached(a.clone()), false);
+    tc::c13_pair(ctx, "cached_cached", a, &Term::cached(Term::cached(a.clone())), false);
+    tc::c13_pair(ctx, "boxed", a, &Term::boxed(a.clone()), false);
+    tc::c13_pair(ctx, "replace_none", a, &Term::replace(a.clone(), vec![]), false);
+    ctx.transitions += 6;
+    for e in [Term::raw(""), Term::orig("", "f0"), Term::RawStr(String::new()), Term::RawBuf(vec![]), Term::concat(vec![])] {
+      tc::c13_pair(ctx, "concat_empty_right", a, &Term::concat(vec![a.clone(), e.clone()]), false);
+      tc::c13_pair(ctx, "concat_empty_left", a, &Term::concat(vec![e.clone(), a.clone()]), false);
+      tc::c13_pair(ctx, "concat_empty_both_add", a, &mk(vec![e.clone(), a.clone(), e.clone()], false, true), false);
+      ctx.transitions += 3;
+    }
+    // only empty replacements: every single position and every pair of positions
+    let len = crate::model::model_text(a).len() as u32;
+    for p in 0..=len + 1 {
+      tc::c13_pair(ctx, "replace_empty_insert", a, &Term::replace(a.clone(), vec![Repl::new(p, p, "")]), true);
+      ctx.transitions += 1;
+      for q in p..=len + 1 {
+        tc::c13_pair(
+          ctx,
+          "replace_empty_inserts",
+          a,
+          &Term::replace(a.clone(), vec![Repl::new(q, q, "").enf(2), Repl::new(p, p, "")]),
+          true,
+        );
+        ctx.transitions += 1;
+      }
+    }
+  }
+  // grouping laws over all ordered triples
+  for a in &pool {
+    for b in &pool {
+      for c in &pool {
+        if !st.mine() {
+          continue;
+        }
+        let flat = Term::concat(vec![a.clone(), b.clone(), c.clone()]);
+        crate::set_current_case(&flat);
+        ctx.begin_case(|| serde_json::to_string(&flat).unwrap());
+        ctx.states += 1;
+        ctx.sample(20_000, 2, || sample_of(&flat));
+        let ab = |typed, add| mk(vec![a.clone(), b.clone()], typed, add);
+        let bc = |typed, add| mk(vec![b.clone(), c.clone()], typed, add);
+        let variants: Vec<(&str, Term)> = vec![
+          ("nested_typed_left", mk(vec![ab(true, false), c.clone()], true, false)),
+          ("nested_boxed_left", mk(vec![ab(false, false), c.clone()], false, false)),
+          ("nested_typed_right", mk(vec![a.clone(), bc(true, false)], true, false)),
+          ("nested_boxed_right", mk(vec![a.clone(), bc(false, false)], false, false)),
+          ("added_later", mk(vec![a.clone(), b.clone(), c.clone()], false, true)),
+          ("added_later_nested_typed", mk(vec![ab(true, true), c.clone()], true, true)),
+          ("added_later_nested_boxed", mk(vec![a.clone(), bc(false, true)], false, true)),
+          ("double_boxed_nested", mk(vec![Term::boxed(ab(false, false)), c.clone()], false, false)),
+        ];
+        for (law, v) in &variants {
+          tc::c13_pair(ctx, law, &flat, v, false);
+          ctx.transitions += 1;
+        }
+      }
+    }
+  }
+  crate::clear_current_case();
+}
+
+pub fn c13_bounds(tier: &str) -> Value {
+  let pool = c13_pool(tier);
+  json!({
+    "engine": "E1 trees: all ordered triples of the pool x 8 grouping styles; per pool element 6 wrapper laws, 15 empty-concatenation laws, all single and paired empty insertions",
+    "pool": pool.len(),
+    "triples": pool.len().pow(3),
+  })
+}
+
+// ---------------------------------------------------------------- C06
+
+pub fn c06_pool(tier: &str) -> (Vec<Term>, Vec<Term>) {
+  use crate::term::Repl;
+  let thorough = tier == "thorough";
+  let kinds = [None, Some(K_A), Some(K_B)];
+  let mut pool: Vec<Term> = Vec::new();
+  for t in ["", "a", "\n", "a\nb"] {
+    pool.push(Term::raw(t));
+    pool.push(Term::orig(t, &trees::file_for(t, trees::TEXTS_FULL)));
+  }
+  pool.push(Term::orig("ab\ncd", "s0")); // shares the name (and content) of the mapped leaves' first source
+  pool.extend(trees::sms_leaves(if thorough { &["ab\n", "a\nb", "a;b\nc"] } else { &["ab\n", "a\nb"] }, if thorough { 3 } else { 2 }, &kinds));
+  pool.extend(trees::script_leaves(&["a\nb", "ab"], if thorough { 3 } else { 2 }, &kinds, true));
+  pool.extend(trees::script_leaves(&["a\nb"], 2, &kinds, false));
+  // one with sourceRoot
+  if let Some(Term::Sms(s)) = pool.iter().find(|t| matches!(t, Term::Sms(s) if s.map.segs.len() == 2 && s.map.contents.is_some())).cloned() {
+    let mut s2 = (*s).clone();
+    s2.map.root = Some("r".into());
+    pool.push(Term::Sms(Box::new(s2)));
+  }
+  // reduced pool for triples / nesting / composite inners
+  let mut small: Vec<Term> = Vec::new();
+  for (i, t) in pool.iter().enumerate() {
+    if i < 9 || i % 9 == 0 {
+      small.push(t.clone());
+    }
+  }
+  small.push(Term::replace(pool[12].clone(), vec![Repl::new(1, 2, "X")]));
+  small.push(Term::cached(pool[14].clone()));
+  (pool, small)
+}
+
+pub fn c06_worker(tier: &str, k: usize, n: usize, ctx: &mut Ctx) {
+  let (pool, small) = c06_pool(tier);
+  let mut st = Striper::new(k, n);
+  let mut visit = |ctx: &mut Ctx, t: &Term| {
+    crate::set_current_case(t);
+    ctx.begin_case(|| serde_json::to_string(t).unwrap());
+    ctx.states += 1;
+    ctx.sample(30_000, 3, || sample_of(t));
+    crate::c06::c06(ctx, t);
+  };
+  // Concat: all ordered pairs of the pool, all triples of the reduced pool, nesting
+  for a in &pool {
+    for b in &pool {
+      if st.mine() {
+        visit(ctx, &Term::concat(vec![a.clone(), b.clone()]));
+      }
+    }
+  }
+  for a in &small {
+    for b in &small {
+      for c in &small {
+        if st.mine() {
+          visit(ctx, &Term::concat(vec![a.clone(), b.clone(), c.clone()]));
+        }
+        if st.mine() {
+          visit(ctx, &Term::concat(vec![Term::concat(vec![a.clone(), b.clone()]), c.clone()]));
+        }
+        if st.mine() {
+          visit(ctx, &Term::Concat { children: vec![a.clone(), Term::concat(vec![b.clone(), c.clone()])], typed: true, add: true });
+        }
+      }
+    }
+  }
+  // Replace: every pool element and every pair of the reduced pool as inner, all replacement sets
+  let mut inners: Vec<Term> = pool.clone();
+  for a in &small {
+    for b in &small {
+      inners.push(Term::concat(vec![a.clone(), b.clone()]));
+    }
+  }
+  for (ii, inner) in inners.iter().enumerate() {
+    if inner.any(&|x| matches!(x, Term::Cached(_))) {
+      continue; // replay coarsens chunks: history-dependent refinement, see DESIGN section 6
+    }
+    let text = crate::model::model_text(inner);
+    let composite = ii >= pool.len();
+    let rs = trees::ReplScope {
+      names2: !composite,
+      contents1: &["", "X", "\n", "Y\nZ"],
+      contents2: if composite { &["", "X"] } else { &["", "X", "\n"] },
+      names1: true,
+      enforce1: !composite,
+      max: if composite && tier != "thorough" { 1 } else { 2 },
+      over: 1,
+      text: &text,
+    };
+    trees::for_each_replset(&rs, &mut |set| {
+      if st.mine() {
+        visit(ctx, &Term::replace(inner.clone(), set));
+      }
+    });
+  }
+  crate::clear_current_case();
+}
+
+pub fn c06_bounds(tier: &str) -> Value {
+  let (pool, small) = c06_pool(tier);
+  json!({
+    "engine": "E1 trees",
+    "pool": pool.len(),
+    "reduced_pool": small.len(),
+    "concat": "all ordered pairs of the pool; all ordered triples of the reduced pool flat, nested boxed, nested typed+add",
+    "replace": "inner = every pool element (all sets of <= 2 replacements, every start<=end in 0..=len+1, contents {'', X, \\n, Y\\nZ}, names, enforce) and every pair of the reduced pool (singles; pairs in thorough)",
+  })
+}
